@@ -1,3 +1,240 @@
-(** C24 — interleaved address conversion.  Property theorems only. *)
-From Akita Require Import Lib.Base C24.Model.
+(** C24 — interleaved address conversion is consistent and order-preserving.
+    Property theorems only.  Throughout: s = interleaving size, n = number of
+    elements, i = element index, off = offset, x = external address.
+    [wf s n] is the no-overflow side condition: 1 <= s, 1 <= n < 2^63 (n is a
+    positive Go int) and s * n < 2^64.  Addresses are 64-bit values (x < 2^64).
+    [convert s n i off x] is InterleavingConverter{s,n,i,off}.ConvertExternalToInternal(x)
+    as repaired by the fix commit; [convert_address false off s n i x] is
+    mem.ConvertAddress("interleaving", off, s, n, i, x). *)
+From Akita Require Import Lib.Base C24.Model C24.Proofs C24.ProofsLink C24.Exec.
 Local Open Scope N_scope.
+
+(** The two exported conversion functions compute the same thing, and an empty
+    kind is the identity. *)
+Theorem c24_entry_points_agree : forall s n i off x,
+  convert_address false off s n i x = convert s n i off x /\
+  convert_address true off s n i x = Ok x.
+Proof. intros. split; [apply convert_address_agrees|apply convert_address_identity]. Qed.
+Print Assumptions c24_entry_points_agree.
+
+(** On the external addresses owned by element i the conversion succeeds, is
+    strictly increasing (hence one-to-one), maps stripe k of element i, i.e. the
+    externals off + (k*n + i)*s + [0, s), exactly onto [k*s, (k+1)*s) with
+    conv (base + j) = k*s + j, every owned address lies in such a stripe, and
+    [to_external] is the two-sided inverse (so every internal address whose
+    preimage is representable is hit). *)
+Theorem c24_owned_bijection_ordered : forall s n i off, wf s n -> i < n ->
+  let conv := convert s (Z.of_N n) (Z.of_N i) off in
+  (* succeeds on owned addresses, with the specification value *)
+  (forall x, x < two64 -> owned s n i off x -> conv x = Ok (internal_of s n off x)) /\
+  (* strictly monotone *)
+  (forall x y, y < two64 -> owned s n i off x -> owned s n i off y -> x < y ->
+     exists u v, conv x = Ok u /\ conv y = Ok v /\ u < v) /\
+  (* one-to-one *)
+  (forall x y v, x < two64 -> y < two64 -> conv x = Ok v -> conv y = Ok v -> x = y) /\
+  (* a stripe maps contiguously onto [k*s, (k+1)*s) *)
+  (forall k j, j < s -> stripe_base s n i off k + j < two64 ->
+     owned s n i off (stripe_base s n i off k + j) /\
+     conv (stripe_base s n i off k + j) = Ok (k * s + j)) /\
+  (* every owned address is in a stripe of element i *)
+  (forall x, owned s n i off x ->
+     exists k j, j < s /\ x = stripe_base s n i off k + j) /\
+  (* inverse: onto, and both round trips *)
+  (forall y, to_external s n i off y < two64 ->
+     owned s n i off (to_external s n i off y) /\ conv (to_external s n i off y) = Ok y) /\
+  (forall x v, x < two64 -> conv x = Ok v -> to_external s n i off v = x).
+Proof.
+  intros s n i off Hwf Hi conv.
+  pose proof (wf_s _ _ Hwf) as Hs. pose proof (wf_n _ _ Hwf) as Hn.
+  assert (Hacc : forall x, x < two64 -> owned s n i off x -> conv x = Ok (internal_of s n off x))
+    by (intros x Hx Ho; apply convert_owned; assumption).
+  assert (Hinv : forall x v, x < two64 -> conv x = Ok v ->
+                 owned s n i off x /\ v = internal_of s n off x).
+  { intros x v Hx Hv.
+    assert (Ho : owned s n i off x) by (apply (convert_ok_iff s n i off x Hwf Hx); eauto).
+    split; [exact Ho|]. unfold conv in Hv. rewrite (convert_owned s n i off x Hwf Hx Ho) in Hv.
+    injection Hv as Hv. auto. }
+  split; [|split; [|split; [|split; [|split; [|split]]]]].
+  - exact Hacc.
+  - intros x y Hy Hox Hoy Hlt. assert (Hx : x < two64) by (eapply N.lt_trans; eauto).
+    exists (internal_of s n off x), (internal_of s n off y).
+    split; [apply Hacc; assumption|]. split; [apply Hacc; assumption|].
+    eapply internal_monotone; eauto.
+  - intros x y v Hx Hy Hcx Hcy.
+    destruct (Hinv x v Hx Hcx) as [Hox Ex]. destruct (Hinv y v Hy Hcy) as [Hoy Ey].
+    apply (internal_injective s n i off x y Hs Hn Hox Hoy). rewrite <- Ex, <- Ey. reflexivity.
+  - intros k j Hj Hfit.
+    destruct (stripe_decomp s n i off k j Hi Hj) as [Ho [_ [_ Hint]]].
+    split; [exact Ho|]. rewrite <- Hint. apply Hacc; assumption.
+  - intros x Ho. destruct (owned_in_stripe s n i off x Hs Hn Ho) as [Ex [Hj _]].
+    exists (stripe_of s n off x), (pos_of s off x). split; assumption.
+  - intros y Hfit. destruct (internal_to_external s n i off y Hs Hi) as [Ho Hint].
+    split; [exact Ho|]. rewrite <- Hint at 2. apply Hacc; assumption.
+  - intros x v Hx Hv. destruct (Hinv x v Hx Hv) as [Ho ->].
+    apply to_external_internal; assumption.
+Qed.
+Print Assumptions c24_owned_bijection_ordered.
+
+(** Addresses below the offset and addresses owned by another element are
+    rejected (panic), for every Go-int index i, including indices outside
+    [0, n); the converter accepts exactly the owned addresses. *)
+Theorem c24_reject_foreign : forall s n (i : Z) off x, wf s n -> x < two64 ->
+  (x < off \/ Z.of_N (element_of s n off x) <> i) ->
+  convert s (Z.of_N n) i off x = Panic /\ convert_address false off s (Z.of_N n) i x = Panic.
+Proof. intros s n i off x Hwf Hx H. split; apply convert_foreign; assumption. Qed.
+Print Assumptions c24_reject_foreign.
+
+Theorem c24_accepts_iff_owned : forall s n i off x, wf s n -> x < two64 ->
+  ((exists v, convert s (Z.of_N n) (Z.of_N i) off x = Ok v) <-> owned s n i off x).
+Proof. exact convert_ok_iff. Qed.
+Print Assumptions c24_accepts_iff_owned.
+
+(** Outside the side conditions: a zero size or a zero element count always
+    panics (integer division by zero). *)
+Theorem c24_degenerate_config_panics : forall s n i off x,
+  s = 0 \/ n = 0%Z -> convert s n i off x = Panic.
+Proof.
+  intros s n i off x [->| ->]; unfold convert; [apply interleave_size0|apply interleave_count0].
+Qed.
+Print Assumptions c24_degenerate_config_panics.
+
+(** ... and when s * n wraps around 2^64 the statement is false of the code:
+    with s = 2^33, n = 2^31 + 1 the round size wraps to 2^33, element 0 accepts
+    address 2^33 (which belongs to element 1) and element 1 rejects it. *)
+Theorem c24_round_overflow_refuted :
+  let s := 2 ^ 33 in let n := (2 ^ 31 + 1)%Z in
+  two64 <= s * Z.to_N n /\
+  element_of s (Z.to_N n) 0 s = 1 /\
+  convert s n 0 0 s = Ok s /\ convert s n 1 0 s = Panic.
+Proof. vm_compute. repeat split; try reflexivity; discriminate. Qed.
+Print Assumptions c24_round_overflow_refuted.
+
+(** The interleaved port mapper (same size, n low modules, no limitation or the
+    address inside [lo, hi)) picks index i exactly for the addresses at or above
+    the offset that the converter of element i accepts — provided n = 1 or the
+    offset is a multiple of s * n. *)
+Theorem c24_mapper_agrees : forall s n i off lim lo hi x, wf s n -> i < n ->
+  (n = 1 \/ off mod (s * n) = 0) ->
+  off <= x -> x < two64 -> (lim = false \/ (lo <= x /\ x < hi)) ->
+  (find lim lo hi s n x = MIdx i <->
+   exists v, convert s (Z.of_N n) (Z.of_N i) off x = Ok v).
+Proof.
+  intros s n i off lim lo hi x Hwf Hi Hc Hoff Hx Hl.
+  rewrite (find_eval lim lo hi s n x (wf_s _ _ Hwf) (wf_n _ _ Hwf) Hl).
+  rewrite (mapper_aligned s n off x (wf_s _ _ Hwf) (wf_n _ _ Hwf) Hc Hoff).
+  rewrite (convert_ok_iff s n i off x Hwf Hx). unfold owned, element_of.
+  split; [intro H; injection H as H; split; assumption|intros [_ H]; rewrite H; reflexivity].
+Qed.
+Print Assumptions c24_mapper_agrees.
+
+(** That condition is exact: as long as one stripe above the offset is
+    representable, mapper and converters agree on all addresses if and only if
+    n = 1 or the offset is a multiple of s * n. *)
+Theorem c24_mapper_agrees_iff : forall s n off, wf s n -> off + s < two64 ->
+  (pair_agrees s n off <-> (n = 1 \/ off mod (s * n) = 0)).
+Proof.
+  intros s n off Hwf Hroom. split.
+  - apply pair_agrees_only_if; assumption.
+  - apply pair_agrees_if; assumption.
+Qed.
+Print Assumptions c24_mapper_agrees_iff.
+
+(** With an offset that is only a multiple of the size the mapper names the
+    owning element rotated by offset / size. *)
+Theorem c24_mapper_rotation : forall s n off lim lo hi x, 1 <= s -> 1 <= n ->
+  off mod s = 0 -> off <= x -> (lim = false \/ (lo <= x /\ x < hi)) ->
+  find lim lo hi s n x = MIdx ((element_of s n off x + off / s) mod n).
+Proof.
+  intros s n off lim lo hi x Hs Hn Ha Hoff Hl.
+  rewrite (find_eval lim lo hi s n x Hs Hn Hl). f_equal. apply mapper_rotation; assumption.
+Qed.
+Print Assumptions c24_mapper_rotation.
+
+(** Outside the limitation the mapper names the module for other addresses. *)
+Theorem c24_mapper_other : forall lo hi s n x, (hi <= x \/ x < lo) ->
+  find true lo hi s n x = MOther.
+Proof. exact find_outside. Qed.
+Print Assumptions c24_mapper_other.
+
+(** Witnesses for an offset violating the condition (both replayed against the
+    real code by the directed generator): offset 64 = one size, not a multiple
+    of 4 * 64 — the mapper sends 64 to module 1, the converter of element 0
+    accepts it and that of element 1 rejects it; offset 1 — address 64 goes to
+    module 1 but is owned by element 0. *)
+Theorem c24_mapper_agrees_refuted :
+  (find false 0 0 64 4 64 = MIdx 1 /\ convert 64 4 0 64 64 = Ok 0 /\ convert 64 4 1 64 64 = Panic) /\
+  (find false 0 0 64 4 64 = MIdx 1 /\ convert 64 4 0 1 64 = Ok 63 /\ convert 64 4 1 1 64 = Panic) /\
+  ~ pair_agrees 64 4 64.
+Proof.
+  split; [vm_compute; repeat split; reflexivity|].
+  split; [vm_compute; repeat split; reflexivity|].
+  intro H.
+  assert (Hwf : wf 64 4) by (constructor; vm_compute; congruence).
+  destruct (pair_agrees_only_if 64 4 64 Hwf ltac:(reflexivity) H) as [E|E]; vm_compute in E; discriminate.
+Qed.
+Print Assumptions c24_mapper_agrees_refuted.
+
+(** The banked mapper and the bank selector of simplebankedmemory. *)
+Theorem c24_banked_find : forall bs len x k,
+  banked_find bs len x = MIdx k <-> bs <> 0 /\ k = x / bs /\ k < len.
+Proof. exact banked_find_spec. Qed.
+Print Assumptions c24_banked_find.
+
+Theorem c24_select_bank_in_range : forall log2 nb addr, log2 < 64 -> 1 <= nb -> nb < two63 ->
+  select_bank log2 (Z.of_N nb) addr = Some (Z.of_N (addr / 2 ^ log2 mod nb)) /\
+  addr / 2 ^ log2 mod nb < nb.
+Proof. exact select_bank_eval. Qed.
+Print Assumptions c24_select_bank_in_range.
+
+(** Regression lemma: the conversion before the fix (external mod size) was not
+    monotone inside a stripe: size 64, 4 elements, element 1, offset 10 — the
+    stripe 74..137 was mapped 127 -> 63, 128 -> 0. *)
+Theorem c24_monotone_old_refuted :
+  let s := 64 in let n := 4%Z in let i := 1%Z in let off := 10 in
+  owned s 4 1 off 127 /\ owned s 4 1 off 128 /\
+  stripe_of s 4 off 127 = stripe_of s 4 off 128 /\
+  convert_old s n i off 127 = Ok 63 /\ convert_old s n i off 128 = Ok 0 /\
+  convert s n i off 127 = Ok 53 /\ convert s n i off 128 = Ok 54.
+Proof.
+  cbv zeta. unfold owned. vm_compute. repeat split; try reflexivity; discriminate.
+Qed.
+Print Assumptions c24_monotone_old_refuted.
+
+(** Non-vacuity: a well-formed configuration with an unaligned offset, a stripe
+    in the middle of the address space, and the inverse. *)
+Example c24_nonvacuous :
+  wf 100 3 /\ 1 < 3 /\ owned 100 3 1 7 (stripe_base 100 3 1 7 5 + 42) /\
+  stripe_base 100 3 1 7 5 + 42 = 1649 /\
+  convert 100 3 1 7 1649 = Ok 542 /\ to_external 100 3 1 7 542 = 1649 /\
+  convert 100 3 1 7 1648 = Ok 541 /\ convert 100 3 1 7 1707 = Panic /\
+  convert 100 3 0 7 1649 = Panic.
+Proof.
+  split; [constructor; vm_compute; congruence|]. unfold owned. vm_compute.
+  repeat split; try reflexivity; discriminate.
+Qed.
+
+Example c24_mapper_nonvacuous :
+  wf 64 4 /\ 512 mod (64 * 4) = 0 /\ 512 <= 512 + 64 + 5 /\
+  find false 0 0 64 4 (512 + 64 + 5) = MIdx 1 /\ convert 64 4 1 512 (512 + 64 + 5) = Ok 5 /\
+  find true 512 1024 64 4 1024 = MOther.
+Proof. split; [constructor; vm_compute; congruence|]. vm_compute. repeat split; reflexivity || discriminate. Qed.
+
+(** The predicate evaluated on the implementation's observed outputs
+    ([Exec.holds_on]) is implied by agreement with the model, for every case
+    whose probed addresses are 64-bit values. *)
+Theorem c24_model_agreement_implies_property : forall c, wf_case c ->
+  check_case c = true -> holds_on c = true.
+Proof. exact check_implies_holds. Qed.
+Print Assumptions c24_model_agreement_implies_property.
+
+Example c24_link_nonvacuous :
+  let c := mk_case 64 4 1 10 false 0 0 64 4 64 16 true 6 4
+             [mk_row 74 (Ok 0) (Ok 0) (Ok 74) (MIdx 1) (MIdx 1) None;
+              mk_row 127 (Ok 53) (Ok 53) (Ok 127) (MIdx 1) (MIdx 1) None;
+              mk_row 138 Panic Panic (Ok 138) (MIdx 2) (MIdx 2) None] in
+  wf_case c /\ check_case c = true /\ holds_on c = true.
+Proof.
+  cbv zeta. split; [|vm_compute; split; reflexivity].
+  intros r Hr. cbn [c_rows In] in Hr.
+  destruct Hr as [<-|[<-|[<-|[]]]]; reflexivity.
+Qed.
